@@ -120,6 +120,15 @@ def run(ctx: Any, prog: Program) -> None:
                         ctx.check('C19.H1', is_dir_test, fs, t_, f'{cls}: the index loop leaves members out depending on `{U(t_)[:60]}` - that is not a test for a directory entry, so real files are missing from this backend '
                                   'while the other backends have them', func=f'{cls}.__init__', text=f'{cls} index filter `{U(t_)[:40]}`')
         if key_form is None:
+            # `index.setdefault(<key>, entry)` in a loop keeps the FIRST of several spellings of one name; the dict comprehension / plain store
+            # of the other backends keeps the last: the same file set then answers with different bytes depending on the backend
+            sd_ = [c for c in ast.walk(init) if isinstance(c, ast.Call) and isinstance(c.func, ast.Attribute) and c.func.attr == 'setdefault' and (dotted(c.func.value) or '').split('.')[-1] in (index, index.lstrip('_')) and len(c.args) == 2]
+            if sd_:
+                key_expr = sd_[0].args[0]
+                key_form = FormEnv(init, call_forms=call_forms).form(key_expr)
+                ctx.check('C19.H1', False, fs, sd_[0], f'{cls}.__init__ fills its index with `{U(sd_[0])[:60]}`: of several spellings of one name (differing in case or slash style) the first is kept, while the zip and VPK '
+                          'backends keep the last - the backends disagree on the content of that name', func=f'{cls}.__init__', text=f'{cls} index keeps the last of duplicate spellings')
+        if key_form is None:
             raise AnalysisError(f'{cls}.__init__: index {index} is not built by a dict comprehension')
         # every *file* of the container is indexed: the only members the comprehension may leave out are directory entries
         for n in ast.walk(init):
@@ -670,6 +679,7 @@ def run(ctx: Any, prog: Program) -> None:
 
 
 MUTANTS = [
+    {'id': 'virtual_index_keeps_first_spelling', 'file': 'filesys.py', 'find': "        self._mapping = {\n            self._clean_path(filename): (filename, data)\n            for filename, data in\n            dict(mapping).items()\n        }", 'replace': "        self._mapping = {}\n        for filename, data in dict(mapping).items():\n            self._mapping.setdefault(self._clean_path(filename), (filename, data))", 'expect': 'C19.H1', 'note': 'round 13'},
     {'id': 'raw_walk_relative_to_the_folder', 'file': 'filesys.py', 'find': "                    os.path.join(dirpath, file),\n                    self.path,\n", 'replace': "                    os.path.join(dirpath, file),\n                    path,\n", 'expect': 'C19.H3', 'note': 'round 12'},
     {'id': 'iter_uses_the_repeating_walk', 'file': 'filesys.py', 'find': "        \"\"\"Iteration yields each file.\"\"\"\n        return self.walk_folder('')", 'replace': "        \"\"\"Iteration yields each file.\"\"\"\n        return self.walk_folder_repeat('') if hasattr(self, 'walk_folder_repeat') else self.walk_folder('')", 'expect': 'C19.H4', 'note': 'round 12'},
     {'id': 'zip_open_by_stored_name', 'file': 'filesys.py', 'find': "            info = self._get_data(name)\n        else:\n            name = name.replace('\\\\', '/')", 'replace': "            info = self.zip.getinfo(self._get_data(name).filename)\n        else:\n            name = name.replace('\\\\', '/')", 'expect': 'C19.H6', 'note': 'round 11'},
